@@ -47,7 +47,7 @@ def plan(tier, seed):
     nmax = 8 if tier == "quick" else 12
     shards = [{"part": "tables", "bin": b, "nmax": nmax, "seed": seed, "half": h} for b in BINS for h in (0, 1)]
     shards += [{"part": "random", "seed": seed, "k": k, "n": 40 if tier == "quick" else 400} for k in range(2)]
-    shards += [{"part": "cli", "seed": seed, "k": k} for k in range(2 if tier == "quick" else 6)]
+    shards += [{"part": "cli", "seed": seed, "k": k} for k in range(3 if tier == "quick" else 6)]
     shards += [{"part": "same", "seed": seed, "k": k, "n": 15 if tier == "quick" else 200} for k in range(2)]
     shards += [{"part": "ambient", "seed": seed, "k": k, "n": 120 if tier == "quick" else 1000} for k in range(2)]
     return shards
@@ -281,7 +281,10 @@ def run_cli(desc, ctx):
     d = os.path.join(ctx.workdir, "cli")
     os.makedirs(d, exist_ok=True)
     # (one-decimal values that are not exact in single precision: text values are doubles, a value equal to the threshold is a tie)
-    ts = sorted(rng.sample([0.0, 1.0, 2.0, 3.0, 5.0] if desc["k"] % 2 == 0 else [0.1, 0.3, 0.7, 0.9, 1.1, 2.3], 3))
+    pools = [[0.0, 1.0, 2.0, 3.0, 5.0], [0.1, 0.3, 0.7, 0.9, 1.1, 2.3],
+             # thresholds with more decimals than any internal rounding keeps: the event is defined by the number as given
+             [0.123456789, 1.000000049, 2.000000012, 3.141592653589, 0.999999951]]
+    ts = sorted(rng.sample(pools[desc["k"] % 3], 3))
     grid = sorted(set(([ts[0] - 1] if rng.random() < 0.5 else []) + ts + [(ts[0] + ts[1]) / 2, (ts[1] + ts[2]) / 2] +
                       ([ts[2] + 1] if rng.random() < 0.5 else [])))      # a threshold may be the data maximum / minimum
     inp = gen.make_input(rng, "cat.txt", "text", gen.pick_times(rng, 4), [0, 12, 24], gen.LOC_POOL[:3])
